@@ -271,6 +271,13 @@ class Runner:
             raise ValueError(f"bad op {op}")
         self.compare_state(addr, before, step_before, done_before, k)
 
+    def stored_out(self, addr):
+        """the outbound address stored in the peer's record right now (None: no record)"""
+        for r in self.storage.all():
+            if r.address_in == addr:
+                return tuple(r.address_out)
+        return None
+
     # -- P2P ---------------------------------------------------------------------------------------
     def apply_p2p(self, op, addr):
         kind = op["kind"]
@@ -278,6 +285,7 @@ class Runner:
         n = len(data)
         rec = self.recs.get(addr)
         registered = bool(rec and rec["registered"])
+        out_before = self.stored_out(addr)
         n0 = len(self.tp.sent)
         n0r = len(self.tr.sent)
         allowed = ()
@@ -306,9 +314,10 @@ class Runner:
         if kind == "reg":
             if rec is None:
                 rec = self.recs[addr] = {"registered": False, "out": ("", 0)}
+            outs = [o for o in (out_before, self.stored_out(addr)) if o is not None]
             for raw, a in emitted:
-                if not (len(raw) == n + 1 and raw[0:3] == b"P2P" and a == rec["out"]):
-                    raise Fail("p2p_emits_only_documented_answers", desc, f"at most one registration answer ({n + 1} octets) to the stored outbound address {list(rec['out'])}")
+                if not (len(raw) == n + 1 and raw[0:3] == b"P2P" and a in outs):
+                    raise Fail("p2p_emits_only_documented_answers", desc, f"at most one registration answer ({n + 1} octets) to the stored outbound address {[list(o) for o in outs]}")
             if len(emitted) > 1:
                 raise Fail("p2p_emits_only_documented_answers", desc, "at most one registration answer")
             self.flags["registration_answered"] += len(emitted)
@@ -330,8 +339,8 @@ class Runner:
                         if len(raw) != n or raw[4:9] != PING_MARK:
                             raise Fail("p2p_emits_only_documented_answers", desc, "a ping answer of the request's length")
                     seen[what] += 1
-                    if not (a == rec["out"] or (a is not None and a[0] == addr[0])):
-                        raise Fail("answer_addressed_to_stored_outbound_address_or_requester", desc, {"outbound": list(rec["out"]), "requester": list(addr)})
+                    if not (a == out_before or (a is not None and a[0] == addr[0])):
+                        raise Fail("answer_addressed_to_stored_outbound_address_or_requester", desc, {"outbound": list(out_before or []), "requester": list(addr)})
                 if any(v > 1 for v in seen.values()):
                     raise Fail("p2p_emits_only_documented_answers", desc, "each answer at most once per request")
                 self.flags["served_registered_" + kind] += 1 if emitted else 0
@@ -448,15 +457,14 @@ class Runner:
                 raise Fail("other_peers_steps_untouched", {ip: self.rdac.step.get(ip)}, {ip: step_before.get(ip)})
         if dict(self.rdac.step) != self.step:
             raise Fail("step_dictionary_equals_model", dict(self.rdac.step), dict(self.step))
-        # records: one per model record, registered attribute, stored outbound address
-        if set(after) != set(self.recs) or any(len(v) != 1 for v in after.values()):
-            raise Fail("one_record_per_peer_address", sorted(map(repr, after)), sorted(map(repr, self.recs)))
-        for key, m in self.recs.items():
-            r = after[key][0]
-            if bool(r["p2p_is_registered"]) != m["registered"]:
-                raise Fail("registered_attribute_set_exactly_by_processed_registration", {"peer": list(key), "attr": r["p2p_is_registered"]}, m["registered"])
-            if tuple(r["address_out"]) != m["out"]:
-                raise Fail("stored_outbound_address_unchanged_by_handlers", {"peer": list(key), "out": list(r["address_out"])}, list(m["out"]))
+        # registered attribute per peer address == "a registration of that address was processed"
+        if any(len(v) != 1 for v in after.values()):
+            raise Fail("one_record_per_peer_address", sorted(map(repr, after)), "no two records with the same inbound address")
+        for key in set(after) | set(self.recs):
+            got = bool(after[key][0]["p2p_is_registered"]) if key in after else False
+            want = bool(self.recs.get(key, {}).get("registered"))
+            if got != want:
+                raise Fail("registered_attribute_set_exactly_by_processed_registration", {"peer": list(key) if key else None, "registered": got}, want)
         # completion callback: exactly once per completed run, with that peer's repeater id
         want_ids = [after[a][0]["id"] for a in self.completed]
         if self.done != want_ids:
@@ -510,17 +518,25 @@ def _enumerate(ctx, sub, t, prefix_ops, symbols, first, depth, label):
             idx = [first] + list(rest)
             case = {"ops": prefix_ops + [symbols[i] for i in idx]}
             r = Runner()
+            fail = None
             try:
                 for op in case["ops"]:
                     r.apply(op)
             except Fail as f:
-                ctx.judge(sub.name, case, f, t)
+                fail = f
             except Exception as e:
                 if not lib_raised(e):
                     raise
-                ctx.judge(sub.name, case, Fail("no_unexpected_exception", f"{type(e).__name__}: {e}", "no exception", exc_klass(e)), t)
+                fail = Fail("no_unexpected_exception", f"{type(e).__name__}: {e}", "no exception", exc_klass(e))
             finally:
                 r.close()
+            if fail is not None:
+                # after 6 judged failures of one bucket in this worker further ones are only counted (keeps failing trees fast)
+                bucket = f"{sub.name}|{fail.clause}|{fail.klass}"
+                if t.fail_counts.get(bucket, 0) >= 6 and not t.known:
+                    t.fail_counts[bucket] += 1
+                else:
+                    ctx.judge(sub.name, case, fail, t)
             t.case(sub.name, nontrivial=r.nontrivial(), cls=f"{label}len_{L}")
             if r.nontrivial() and (sum((i + 1) * 37 ** k for k, i in enumerate(idx)) % 9001) == 0:
                 t.sample(sub.name, {"prefix_ops": len(prefix_ops), "symbols": idx})
@@ -607,7 +623,7 @@ def drv_random(ctx: Ctx, sub: SubCheck):
     M = make_machine("RepeaterHandshakeMachine", Runner, _strategies())
 
     def work(shard, t: Tally):
-        ctx.state_machine(sub.name, M, max_examples=ctx.pick(30, 300), step_count=ctx.pick(50, 150), tally=t, shard=shard)
+        ctx.state_machine(sub.name, M, max_examples=ctx.pick(30, 200), step_count=ctx.pick(50, 150), tally=t, shard=shard)
 
     ctx.shards(work, list(range(16)))
 
